@@ -2,6 +2,7 @@ package main
 
 import (
 	"fmt"
+	"go/constant"
 	"go/token"
 	"go/types"
 	"sort"
@@ -92,7 +93,7 @@ func checkC12(c *Ctx) {
 		"(C12.sync) in the owners a key that is new is inserted together with exactly one append to keyOrder, an existing key is overwritten without touching keyOrder, and 移除 deletes from the map and splices the key out of keyOrder preserving the order of the others; " +
 		"(C12.index) indexed access translates position−1 and both bounds tests (0 <= i < length) dominate the element access, out-of-range returns IndexOutOfRange with no store, a missing key on read returns IndexKeyNotFound, a keyed write goes through AppendKVPair; " +
 		"(C12.empty) the 'empty list' exits of 首项/末项/左移/右移 are taken exactly when the length is 0; (C12.len) 长度/数目 are len() of the backing store; (C12.order) every producer of a visible ordering of a dictionary derives it from keyOrder, including JSON generation (rule: a dictionary is never routed through a Go map); " +
-		"(C12.copy) DuplicateValue deep-copy rules (shared with C07). (C12.getter) a property getter of a list / dictionary never returns its receiver; NewHashMap writes the value on every iteration (a repeated key takes the last value). (C12.iter = C02.iter) 遍历 binds the element's own 1-based position. NOT decided: the sequence laws of 前增 后增 交换 逆序 合并 包含 寻找 (value-level), the bijection keyOrder<->value after arbitrary histories beyond the per-operation sync rule."
+		"(C12.copy) DuplicateValue deep-copy rules (shared with C07). (C12.getter) a property getter of a list / dictionary never returns its receiver; NewHashMap writes the value on every iteration (a repeated key takes the last value). (C12.iter = C02.iter) 遍历 binds the element's own 1-based position. NOT decided: the sequence laws of 前增 后增 交换 逆序 合并 包含 寻找 (value-level), the bijection keyOrder<->value after arbitrary histories beyond the per-operation sync rule. (C12.contains) when 包含 is computed from the position 寻找 reports, the test accepts every position >= 0 and rejects -1; 交换 answers only after addressing both positions (must-call with the pseudo-callee index:Array.value)."
 	R.Assumptions = []string{"Go append/slicing semantics", "tables/owners.json lists the intended writers (reviewed)"}
 	u := c.Core()
 	u.buildSSA()
@@ -249,6 +250,59 @@ func checkC12(c *Ctx) {
 
 	// 遍历 binds the element's own 1-based position
 	borrowRule(c, "C02", "C02.iter", "C12.iter")
+
+	// ---- C12.contains: 包含 answers 真 exactly when 寻找 would find the element. When the answer is computed from the
+	// position 寻找 reports (0-based, -1 = not found), the test must accept every position >= 0 and reject -1
+	if f := u.ssaFunc("pkg/value", "arrayExecContains"); f != nil {
+		for _, nb := range u.callsNamed(f, "pkg/value.NewBool") {
+			bo, isB := nb.Common().Args[0].(*ssa.BinOp)
+			if !isB {
+				continue
+			}
+			var k *ssa.Const
+			var other ssa.Value
+			flip := false
+			if kc, ok := bo.Y.(*ssa.Const); ok {
+				k, other = kc, bo.X
+			} else if kc, ok := bo.X.(*ssa.Const); ok {
+				k, other, flip = kc, bo.Y, true
+			}
+			fromFind := other != nil && flowsFromDeep(other, func(v ssa.Value) bool {
+				call, ok := v.(*ssa.Call)
+				return ok && u.callName(call) == "pkg/value.arrayExecFind"
+			})
+			if k == nil || !fromFind || k.Value == nil {
+				continue
+			}
+			c, _ := constant.Float64Val(constant.ToFloat(k.Value))
+			okAll := true
+			for _, pos := range []float64{-1, 0, 1, 7} {
+				l, r := pos, c
+				if flip {
+					l, r = c, pos
+				}
+				var got bool
+				switch bo.Op {
+				case token.GTR:
+					got = l > r
+				case token.GEQ:
+					got = l >= r
+				case token.LSS:
+					got = l < r
+				case token.LEQ:
+					got = l <= r
+				case token.NEQ:
+					got = l != r
+				case token.EQL:
+					got = l == r
+				}
+				if got != (pos >= 0) {
+					okAll = false
+				}
+			}
+			R.check(okAll, "C12.contains", "pkg/value.arrayExecContains:position-test", u.pos(bo.Pos()), "every position 寻找 can report (0, 1, …) counts as contained, -1 does not", "包含 tests the position reported by 寻找 (0-based, -1 = not found) with a comparison that gives the wrong answer for position 0 or for -1: an element that is the first item of the list is reported as not contained")
+		}
+	}
 
 	// ---- C12.empty
 	for _, name := range []string{"arrayGetFirstItem", "arrayGetLastItem", "arrayExecShift", "arrayExecPop"} {
@@ -557,7 +611,7 @@ func checkC19(c *Ctx) {
 		"(C19.catch) every error exit of JSONStringToElement / HashMapToJSONString / ElementToJSONString returns an exception signal built by value.ThrowException (the kind a 拦截 can catch) and the encoding/json error is not dropped; " +
 		"(C19.whole) the parser consumes the whole text (json.Unmarshal / json.Valid, not a streaming Decoder that stops after the first value); (C19.kinds) buildPlainValueFromElement has a case for each JSON-representable value kind mapping to the matching Go kind " +
 		"(numbers stay float64: no integer conversion), and buildElementFromPlainValue has returning cases for exactly the six dynamic types encoding/json produces; (C19.params) the library functions validate their parameter before asserting it; " +
-		"(C19.maprange) the map ranges on this path (C11 classifier). (C19.verbatim) the generated text is exactly string(bytes of json.Marshal); (C19.fresh) no element of a parsed document comes from a package-level variable. (C19.sync = C12.sync) a removed key is gone from the map as well as from the order list. NOT decided: RFC 8259 escaping and number formatting (encoding/json, trusted), inverse-ness for all values."
+		"(C19.maprange) the map ranges on this path (C11 classifier). (C19.verbatim) the generated text is exactly string(bytes of json.Marshal); (C19.fresh) no element of a parsed document comes from a package-level variable. (C19.sync = C12.sync) a removed key is gone from the map as well as from the order list. NOT decided: RFC 8259 escaping and number formatting (encoding/json, trusted), inverse-ness for all values. (C19.keys) AppendKVPair and NewHashMap store value and order under the pair's Key exactly as given."
 	R.Assumptions = []string{"encoding/json implements RFC 8259 for Go maps, slices, strings, float64, bool, nil"}
 	u := c.Core()
 	u.buildSSA()
@@ -665,6 +719,65 @@ func checkC19(c *Ctx) {
 		R.check(okV && nS >= 1, "C19.verbatim", "pkg/common."+name, u.pos(f.Pos()), "the text value is string(bytes returned by json.Marshal)", "the output of json.Marshal is rewritten before it is returned: escaping-blind text replacement can produce invalid JSON")
 	}
 
+	// ---- C19.keys: a member name becomes the dictionary key as it is: the primitives that fill a dictionary
+	// (AppendKVPair for parsed documents, NewHashMap for literals) store the value and record the order under the
+	// very Key field of the pair they are given (no trimming, folding or other rewriting in between)
+	for _, name := range []string{"HashMap.AppendKVPair", "NewHashMap"} {
+		f := u.ssaFunc("pkg/value", name)
+		if f == nil {
+			R.lost("C19.keys", "pkg/value."+name)
+			continue
+		}
+		isKeyField := func(v ssa.Value) bool {
+			for _, src := range allSources(v) {
+				ok := false
+				switch x := src.(type) {
+				case *ssa.Field:
+					ok = fieldName(x.X.Type().Underlying().(*types.Struct).Field(x.Field)) == "Key"
+				case *ssa.UnOp:
+					if fa, isFA := x.X.(*ssa.FieldAddr); isFA && x.Op == token.MUL {
+						ok = strings.HasSuffix(fieldAddrName(fa), ".Key")
+					}
+				}
+				if !ok {
+					return false
+				}
+			}
+			return true
+		}
+		nK, okK := 0, true
+		for _, in := range instrsOf(f) {
+			switch x := in.(type) {
+			case *ssa.MapUpdate:
+				if containerFieldOf(x.Map) == "HashMap.value" {
+					nK++
+					okK = okK && isKeyField(x.Key)
+				}
+			case *ssa.Call:
+				if bi, isB := x.Call.Value.(*ssa.Builtin); isB && bi.Name() == "append" && len(x.Call.Args) == 2 && containerFieldOf(x.Call.Args[0]) == "HashMap.keyOrder" {
+					// append(keyOrder, key): the variadic argument is a one-element slice built from the key
+					nK++
+					okE := false
+					if sl, isSl := x.Call.Args[1].(*ssa.Slice); isSl {
+						if al, isAl := sl.X.(*ssa.Alloc); isAl {
+							for _, r := range *al.Referrers() {
+								if ia, isIA := r.(*ssa.IndexAddr); isIA {
+									for _, r2 := range *ia.Referrers() {
+										if st, isSt := r2.(*ssa.Store); isSt && isKeyField(st.Val) {
+											okE = true
+										}
+									}
+								}
+							}
+						}
+					}
+					okK = okK && okE
+				}
+			}
+		}
+		R.check(okK && nK >= 2, "C19.keys", "pkg/value."+name, u.pos(f.Pos()), "value and order are recorded under the pair's Key as given", "a dictionary is filled under a rewritten key (not the pair's Key itself): 解析JSON(生成JSON(d)) differs from d for member names the rewriting changes, and distinct names can collapse into one entry")
+	}
+
 	// ---- C19.fresh: parsed values are built for this call only - nothing of a parsed document is taken from a
 	// package-level table (numbers, lists and dictionaries are mutable in place: a shared element couples documents)
 	for _, name := range []string{"buildElementFromPlainValue", "JSONStringToElement"} {
@@ -722,6 +835,26 @@ func checkC19(c *Ctx) {
 			}
 		}
 		R.check(all, "C19.kinds", "pkg/common.buildPlainValueFromElement:cases", u.pos(f.Pos()), "空 text bool number list dictionary each have a case", "a JSON-representable value kind has no case (it would be written as null)")
+		// the list case hands encoding/json a non-nil slice: a nil []any is written as null, so an empty list would
+		// come back as 空
+		nilList := ""
+		for _, b := range f.Blocks {
+			ret, ok := b.Instrs[len(b.Instrs)-1].(*ssa.Return)
+			if !ok || len(ret.Results) != 1 {
+				continue
+			}
+			for _, src := range allSources(retValue(ret, 0)) {
+				if _, isSlice := src.Type().Underlying().(*types.Slice); !isSlice {
+					continue
+				}
+				for _, s2 := range allSources(src) {
+					if k, isK := s2.(*ssa.Const); isK && k.Value == nil {
+						nilList = u.pos(ret.Pos())
+					}
+				}
+			}
+		}
+		R.check(nilList == "", "C19.kinds", "pkg/common.buildPlainValueFromElement:empty-list", u.pos(f.Pos()), "a list becomes a non-nil slice (an empty list is written as [])", "the slice built for a list can still be nil when the list is empty (return at "+nilList+"): encoding/json writes null, so 生成JSON turns an empty list into 空 and 解析JSON(生成JSON(d)) differs from d")
 		R.check(!conv, "C19.kinds", "pkg/common.buildPlainValueFromElement:numbers", u.pos(f.Pos()), "numbers are handed to encoding/json as float64 (non-finite values make Marshal fail -> exception)", "a number is converted to an integer before encoding (large or non-finite doubles are silently changed)")
 	} else {
 		R.lost("C19.kinds", "pkg/common.buildPlainValueFromElement")
